@@ -821,7 +821,7 @@ fn det_sweep(args: &Args, rep: &mut Reporter) -> DetStats {
         // of it is enough to have the interpreter look at every code path of the harness and runner)
         for w in ws.iter() {
             case_index += 1;
-            if miri && !(case_index % 31 == args.seed as usize % 31 && args.in_shard(case_index / 31)) {
+            if miri && !(case_index % 47 == args.seed as usize % 47 && args.in_shard(case_index / 47)) {
                 continue;
             }
             do_det_case(rep, &mut st, v, &[*w]);
@@ -866,6 +866,8 @@ struct StressStats {
     woken_by_runner_side: u64,
     max_polls_in_round: u64,
     hang_guard: bool,
+    /// the part was cut short because violations (or a hang) had already been reported
+    stopped_early: bool,
 }
 
 impl StressStats {
@@ -880,6 +882,7 @@ impl StressStats {
             woken_by_runner_side: 0,
             max_polls_in_round: 0,
             hang_guard: false,
+            stopped_early: false,
         }
     }
 }
@@ -1059,7 +1062,7 @@ fn stress_epoch(
     for round in 0..rounds {
         let nthreads = 1 + rng.below(pool.slots.len().min(2));
         let wmax = if tiny {
-            2
+            3
         } else if rng.chance(1, 8) {
             32
         } else {
@@ -1189,7 +1192,7 @@ fn stress_epoch(
 
 fn stress(args: &Args, rep: &mut Reporter) -> StressStats {
     let mut st = StressStats::new();
-    let budget = args.budget(100_000, 3_000_000, 60) as u64;
+    let budget = args.budget(100_000, 3_000_000, 80) as u64;
     let tiny = args.tier == Tier::Miri;
     let mut rng = args.rng().fork(0x57E55 + args.shard.0 as u64);
     let mut reported = 0;
@@ -1209,10 +1212,12 @@ fn stress(args: &Args, rep: &mut Reporter) -> StressStats {
             Err(msg) => {
                 clear_runner();
                 report_violation(rep, "C27|Dfir::run|panic|cross-thread", &format!("panic: {msg}"), case);
+                st.stopped_early = true;
                 break; // the pool may be mid-round
             }
         }
         if reported > 50 || rep.counter("stress:hang_guard_or_unexpected_ready") > 0 {
+            st.stopped_early = true;
             break;
         }
     }
@@ -1375,7 +1380,10 @@ fn main() {
             require(ok, &format!("window class {label} never hit"));
         }
         require(det.cases_all_fired >= 10_000, "fewer than 10000 deterministic cases reached all their windows");
-        require(stress.wakes >= args.budget(100_000, 3_000_000, 0) as u64, "stress: wake budget not reached");
+        require(
+            stress.stopped_early || stress.wakes >= args.budget(100_000, 3_000_000, 0) as u64,
+            "stress: wake budget not reached",
+        );
         let non_idle: u64 = (0..14).filter(|i| *i != L_IDLE as usize).map(|i| stress.at[i]).sum();
         require(non_idle >= 300, "stress: fewer than 300 wakes landed while the runner was not idle");
         let distinct_at = (0..14).filter(|i| stress.at[*i] > 0).count();
@@ -1397,7 +1405,7 @@ fn main() {
             "t": "summary", "prop": "C27", "evaluations": rep.evaluations,
             "distinct_nontrivial": rep.distinct_count(),
             "rule": "Miri slice: a thin sample of the deterministic window cases (identical for every Miri seed) plus \
-                     cross-thread rounds (1-2 threads x 1-2 wakes against run(), fresh dataflow every 2 rounds) whose \
+                     cross-thread rounds (1-2 threads x 1-3 wakes against run(), fresh dataflow every 2 rounds) whose \
                      thread schedule and weak-memory behaviour depend on the Miri seed; same oracle as the native tier.",
             "samples": [], "exhaustive": false, "min_obs_ok": min_fail.is_empty(), "min_obs_reason": min_fail,
             "extra": extra, "violations": OWN_VIOLATIONS.load(Relaxed)
